@@ -33,6 +33,27 @@ def state_rater_product():
         for rid in world.RATERS:
             out.append(list(pre) + [{"op": "rate", "rater": rid},
                                     {"op": "rate", "rater": rid}])
+    fitted = states["fitted"]
+    real = [r for r in world.RATERS
+            if str(world.RATERS[r]["regressor"]).lower() != "none"]
+    for rid in real:
+        # an interrupted rating, then the real one (twice)
+        out.append(list(fitted) + [{"op": "rate_fault", "rater": rid},
+                                   {"op": "rate", "rater": rid},
+                                   {"op": "rate", "rater": rid}])
+        # a foreign rater with other hyper-parameters in between
+        out.append(list(fitted) + [{"op": "rate", "rater": rid},
+                                   {"op": "get_rater_kw", "rater": rid},
+                                   {"op": "fit", "kw": {"weight_cp": "w_half"}},
+                                   {"op": "rate", "rater": rid}])
+    # caller-owned training sets whose content changes between the calls
+    import itertools
+    for grp in (["R_et_memA", "R_et_memB", "R_et_memC"],
+                ["R_rf_dirA", "R_rf_dirB"]):
+        for a, b in itertools.permutations(grp, 2):
+            out.append(list(fitted) + [{"op": "rate", "rater": a},
+                                       {"op": "rate", "rater": b},
+                                       {"op": "rate", "rater": a}])
     return out
 
 
